@@ -7,7 +7,8 @@ R : searchlab maps positions to concrete vectors (3 metrics x dims {2,3,7,8,9,15
     with plain / ef-override / batch / timed search flavours.
 O : SearchTrace.tla (S1): at most k distinct live ids, true distance to the CURRENT vector (f64 reference), order,
     completeness w.r.t. acknowledged un-drained writes (exempt when the engine reports a degraded answer).
-Verdict here: every rejected search that was NOT served from the query cache (cache hits are C07's verdict).
+Verdict here: every rejected search, whichever path served it (C07 runs the same machinery on cache-heavy behaviours and
+judges the cache hits only).
 """
 import json
 import vlib
@@ -21,8 +22,8 @@ def judge(ck, beh, capq, tag, want_hit):
     for run, ln in sorted(bad_runs.items()):
         e = events[ln - 1]
         is_hit = e.get("path") == "CacheHit"
-        if is_hit != want_hit:
-            continue
+        if want_hit and not is_hit:
+            continue        # C07 judges the cache hits only; C06 judges every search, whichever path served it
         nbad += 1
         b = dict(beh[run]); b["cfg"] = cfgs[run]
         first = sc.first_index(events, run)
